@@ -215,6 +215,21 @@ theorem sum_node_forces (fx : FX R) (x : Nat → V3 R) (F : List Face) (p : Para
    sum_nodeForce n _ (internalContribs_ids_lt fx x F p n hn),
    sum_nodeTorque n x _ (internalContribs_ids_lt fx x F p n hn)⟩
 
+/-- cells with unused face / node slots (after `refine_mesh`, before `rebase`): the loops skip the unused slots,
+    so every per-term theorem above applies verbatim with `F := liveFaces S` (pressure, tension and angle terms
+    of `internalContribsSlots` ARE those of `liveFaces S`); with the stored edge set `E`, zero net force and torque -/
+theorem slots_net_force_torque_zero (fx : FX R) (x : Nat → V3 R) (S : List Slot) (E : List EdgeRec) (p : Params R)
+    (hc : Closed (liveFaces S)) (he : EqbOK fx) (hs : FaceSqrt fx x (liveFaces S))
+    (hH : ∀ h ∈ E.map (hingeOfEdge S), HingeHyp fx (x h.n1) (x h.n2) (x h.n3) (x h.n4) (faceGeom fx x h.f1).1
+      (faceGeom fx x h.f2).1 (faceGeom fx x h.f1).2 (faceGeom fx x h.f2).2) :
+    netForce (internalContribsSlots fx x S E p) = 0 ∧ netTorque x (internalContribsSlots fx x S E p) = 0 :=
+  slots_net fx x S E p hc he hs hH
+
+/-- with the edge set of a freshly built cell the slot model is the plain model of the used faces -/
+theorem slots_fresh (fx : FX R) (x : Nat → V3 R) (S : List Slot) (E : List EdgeRec) (p : Params R)
+    (h : E.map (hingeOfEdge S) = hingesSorted (liveFaces S)) :
+    internalContribsSlots fx x S E p = internalContribs fx x (liveFaces S) p := slots_eq_fresh fx x S E p h
+
 /-- the model applies the terms in the order of the calls in the C++ -/
 theorem orchestration_order : Gen.Forces.orchestration = expectedOrchestration := by decide
 
